@@ -118,7 +118,7 @@ def post(check, pairs, stats):
 CFG = {
     "id": "C09",
     "level": "proof",
-    "lean_modules": ["GeomV.C09.Proofs", "GeomV.C09.ProofsProj", "GeomV.C09.ProofsDatum", "GeomV.C09.ProofsPipeline"],
+    "lean_modules": ["GeomV.C09.Proofs", "GeomV.C09.ProofsProj", "GeomV.C09.ProofsDatum", "GeomV.C09.ProofsPipeline", "GeomV.C09.ProofsInit"],
     "exe": "geomv_c09",
     "go_cmd": "c09",
     "stages": ["go:gen", "go:impl", "lean:judge"],
@@ -141,6 +141,8 @@ CFG = {
         "go_geocentric_from_wgs84_eq_js", "go_compare_datums_eq_js", "go_datum_eq_js", "go_datum_eq_js_any",
         # (A) transform.go closure = transform.js, given stage-wise equality
         "go_pipeline_core_eq_js", "twoHop_same", "go_pipeline_eq_js", "stage_of", "js_forward_keeps_z", "js_inverse_keeps_z",
+        # (A) constructors: constants computed by the Go constructor = those of the proj4js init
+        "go_init_tmerc_eq_js", "go_tmerc_fwd_eq_js'", "go_tmerc_inv_eq_js'", "go_init_utm_eq_js", "go_utm_fwd_eq_js'",
         # (B) Snyder's closed forms
         "snyder_mdist_eq", "snyder_m_eq", "snyder_t_eq", "snyder_q_eq",
         "snyder_merc_eq", "snyder_lcc_eq", "snyder_aea_eq", "snyder_eqdc_eq",
